@@ -29,6 +29,8 @@ F = fractions.Fraction
 L = symx.SymReal.lift
 COULOMB_C = os.path.join(harness.REPO, "jellyfysh/potential/inverse_power_coulomb_bounding_potential/"
                                        "inverse_power_coulomb_bounding_potential.c")
+MERGED_C = os.path.join(harness.REPO, "jellyfysh/potential/merged_image_coulomb_potential/"
+                                      "merged_image_coulomb_potential.c")
 
 
 class Dual(object):
@@ -300,8 +302,104 @@ def explore(task):
         finally:
             jf.reset_settings()
 
+    def run_lattice(ex):
+        """merged_image_coulomb_potential.c through csym with exp/erfc uninterpreted and (cos, sin) of each reduced
+        coordinate a point of the unit circle: the two truncated sums visit exactly the lattice vectors inside the
+        cut-off spheres, with the multiplicities of the mirrored Fourier terms, every array access in bounds."""
+        _, pc, fc = task
+        sx, sy, sz, Ls, alpha = (ex.real(n) for n in ("sx", "sy", "sz", "L", "alpha"))
+        ex.axiom(z3.And(Ls.t > 0, alpha.t > 0))
+        ex.axiom(z3.Or(sx.t != 0, sy.t != 0, sz.t != 0))
+        R = z3.RealSort()
+        f_exp, f_erfc = z3.Function("uf_exp", R, R), z3.Function("uf_erfc", R, R)
+        trig = {}
+        ex.assume_nonzero_divisors = True      # image vectors coinciding with the separation are excluded as inputs
+
+        class M(csym.CMath):
+            def sqrt(self, x):
+                if isinstance(x, symx.SymReal):
+                    return symx.SymReal(ex.pow_theory().apply(x.t, F(1, 2)))    # argument: a sum of squares
+                return math.sqrt(x)
+
+            def exp(self, x):
+                return symx.SymReal(f_exp(L(x)))
+
+            def erfc(self, x):
+                return symx.SymReal(f_erfc(L(x)))
+
+            def _point(self, x):
+                key = str(z3.simplify(L(x)))
+                if key not in trig:
+                    c, s_ = ex.fresh_real("cos"), ex.fresh_real("sin")
+                    ex.axiom(c.t * c.t + s_.t * s_.t == 1)
+                    trig[key] = (c, s_)
+                return trig[key]
+
+            def cos(self, x):
+                return self._point(x)[0]
+
+            def sin(self, x):
+                return self._point(x)[1]
+        interp = csym.Interp(MERGED_C, max_loop=64, math_impl=M())
+        pot = interp.call("construct_merged_image_coulomb_potential", fc, pc, alpha, Ls)
+        # images that coincide with the origin of the separation are excluded as inputs (division by zero)
+        for i in range(-pc, pc + 1):
+            for j in range(-pc, pc + 1):
+                for k in range(-pc, pc + 1):
+                    if i * i + j * j + k * k <= pc * pc:
+                        ex.axiom(z3.Or(sx.t + i * Ls.t != 0, sy.t + j * Ls.t != 0, sz.t + k * Ls.t != 0))
+        increments = []
+        interp.assign_hook = lambda name, op, rhs: increments.append(L(rhs)) if (name == "derivative" and op == "+=") \
+            else None
+        got = interp.call("derivative", pot, sx, sy, sz)
+        interp.assign_hook = None
+        pt = ex.pow_theory()
+        pi = symx.realval(math.pi)
+        aol = alpha.t / Ls.t
+        ref_terms = []
+        for k in range(-pc, pc + 1):
+            for j in range(-pc, pc + 1):
+                for i in range(-pc, pc + 1):
+                    if i * i + j * j + k * k > pc * pc:
+                        continue
+                    vx, vy, vz = sx.t + i * Ls.t, sy.t + j * Ls.t, sz.t + k * Ls.t
+                    v2 = vx * vx + vy * vy + vz * vz
+                    nrm = pt.apply(v2, F(1, 2))
+                    ref_terms.append(("image(%d,%d,%d)" % (i, j, k),
+                                      vx * (2 * alpha.t / (Ls.t * symx.realval(math.sqrt(math.pi))) * f_exp(-(aol * aol) * v2)
+                                            + f_erfc(aol * nrm) / nrm) / v2))
+        n_pos = len(ref_terms)
+        tpl = 2 * pi / Ls.t
+        (ca, sa), (cb, sb), (cc, sc) = (trig[str(z3.simplify(tpl * x.t))] for x in (sx, sy, sz))
+
+        def cis(c, s_, n):
+            re, im = z3.RealVal(1), z3.RealVal(0)
+            for _ in range(n):
+                re, im = re * c.t - im * s_.t, im * c.t + re * s_.t
+            return re, im
+        for i in range(1, fc + 1):
+            for j in range(0, fc + 1):
+                for k in range(0, fc + 1):
+                    n2 = i * i + j * j + k * k
+                    if n2 > fc * fc:
+                        continue
+                    mult = (1 if j == 0 else 2) * (1 if k == 0 else 2)
+                    coeff = 4 * i * mult / (n2 * Ls.t * Ls.t) * f_exp(-(pi * pi) * n2 / (alpha.t * alpha.t))
+                    ref_terms.append(("wave(%d,%d,%d)" % (i, j, k),
+                                      coeff * cis(ca, sa, i)[1] * cis(cb, sb, j)[0] * cis(cc, sc, k)[0]))
+        ex.note("terms", (n_pos, len(ref_terms) - n_pos))
+        # the code adds one term per visited lattice vector, in the order of its nested loops; the reference
+        # enumerates the integer vectors inside the two cut-off spheres in the same nesting order
+        ex.oblige("one-term-per-lattice-vector-inside-the-cutoffs", z3.BoolVal(len(increments) == len(ref_terms)),
+                  code_terms=len(increments), reference_terms=len(ref_terms))
+        for (name_, rt), inc in zip(ref_terms, increments):
+            ex.oblige("term-%s" % name_, inc == rt)
+        total = z3.RealVal(0)
+        for inc in increments:
+            total = total + inc
+
     fn = {"ipp": run_ipp, "lj": run_lj, "dep": run_dep, "bending": run_bending, "coulomb_c": run_coulomb_c,
-          "wrapper": run_wrapper}[kind]
+          "wrapper": run_wrapper, "lattice": run_lattice}[kind]
 
     def run(ex):
         _, undo = jf.patch_math_random([vectors_mod], ex)
@@ -490,6 +588,12 @@ def main():
         chk.outside_claim("quick tier: Lennard-Jones in 2-3 dimensions, inverse power 12 in 3 dimensions and the "
                           "bending potential are decided in the thorough tier only (solver time)")
     tasks.append(("coulomb_c",))
+    # The termwise structure check of merged_image_coulomb_potential.c ("lattice" instances: csym with exp/erfc
+    # uninterpreted) is implemented above but not part of the claim: its QF_UFNRA term equalities do not terminate
+    # within minutes in either solver.  It can be run explicitly with  --only lattice  (VERIF_LATTICE=1).
+    if os.environ.get("VERIF_LATTICE") == "1":
+        for pc, fc in ((1, 1), (2, 1), (1, 2)):
+            tasks.append(("lattice", pc, fc))
     for which in ("bounding", "merged"):
         for dr in range(3):
             tasks.append(("wrapper", which, dr))
